@@ -9,6 +9,10 @@ CLAIMED = {
             "Kernel-checked Lean 4 theorems over the VLQ model: round trip for every list of 62-bit integers (unbounded length), canonical texts re-encode to themselves, all u32 differences, agreement with an independent reading of the standard on every alphabet string whose values fit 63 bits, unconditional error cases, and the 256-entry table facts by `decide +kernel` over constants regenerated from vlq.rs on every run. The model is tied to the code by a differential run (exhaustive short strings, +-2^22 / +-2^32 integer windows by checksum, random long strings).",
             "Trusted: Lean kernel (+ propext, Classical.choice, Quot.sound), the hand-written model lean/SmVerif/Model/Vlq.lean, the correspondence harness and extractor; i64 semantics of rustc. Values whose 13th digit overflows i64 are outside the standard and only compared model-vs-code.",
             "Lean 4 proof (induction) + regenerated constants + differential correspondence"),
+    "C04": ("7/C04",
+            "Kernel-checked theorems over the model of greatest_lower_bound (std's binary_search_by algorithm + walk-back) and lookup_token: for every position-ordered token list and every query, nothing is returned iff no token starts at or before the query, the returned token is the i-th token, lies at the greatest position not after the query and is the first of its position on an exact hit, the answer is one the declarative specification admits, and lookup cannot panic; SourceMap::new's sort yields an ordered permutation and leaves ordered input unchanged. Tied to the code by a differential run (all multisets of <= 4 positions on a 3x3 grid x 16 queries, random maps up to 60 tokens with ties, queries around every token and at u32::MAX; Token::idx observed through TokenIter::seek).",
+            "Trusted: Lean kernel, the hand-written model lean/SmVerif/Model/Lookup.lean (std binary search mirrored literally), harness/driver; sort_unstable_by_key assumed to return a sorted permutation and to leave sorted input unchanged (tie order of unsorted input is not observable through the checks: ties are given pre-ordered). Ordering of maps produced by builder/rewrite/flatten/adjust is covered where those operations are modelled (they all end in SourceMap::new / an explicit sort).",
+            "Lean 4 proof (bisection invariant, induction) + differential correspondence"),
 }
 
 PENDING_REASON = "not claimed yet: model/theorems for this property are still being built (see DESIGN.md section 7); no check is registered rather than registering an unsound one"
